@@ -47,6 +47,20 @@ def oracle(ctx):
                         if cv.round_precision < need:
                             ctx.oracle_fail(f"real column rounded to {cv.round_precision} decimal places although its values need {need}: released values "
                                             f"cannot lie at their original precision", dict(case0, column=j), "round-precision")
+                    if lo == hi and F is not None and "df" in t and not t.get("refit") and hasattr(F, "data"):
+                        # a single-point range is the code of input values: it decodes back to the input value that was encoded to it
+                        import numpy as np
+                        hit = np.nonzero(F.data[:, comb[j]] == lo)[0]
+                        if len(hit):
+                            orig = t["df"].iloc[int(hit[0]), comb[j]]
+                            same = None
+                            if isinstance(cv, (StringConvertor, BooleanConvertor)): same = (val == orig)
+                            elif isinstance(cv, TimestampConvertor): same = abs((val - orig) / pd.Timedelta(1, "s")) <= 1.0
+                            elif isinstance(cv, IntegerConvertor): same = abs(float(val) - float(orig)) <= 1e-9 * abs(float(orig)) + (0 if abs(float(orig)) < 1e12 else 1)
+                            else: same = abs(float(val) - float(orig)) <= 1e-6 * max(abs(float(orig)), 10.0 ** (-cv.round_precision))
+                            if not same:
+                                ctx.oracle_fail(f"single-point range {lo!r} is the code of the input value {orig!r} (row {int(hit[0])}) but decodes to {val!r}",
+                                                dict(case, input_value=repr(orig)), "singular-input")
                     if isinstance(cv, StringConvertor):
                         vm = cv.value_map; n = len(vm)
                         # hypothesis of C11_mask_prefix_covers_range: the value map is strictly increasing by code points
